@@ -40,7 +40,7 @@ Proof.
 Qed.
 
 (* wildcard: an atom WILD on the left matches anything *)
-Definition WILD : N := 999996.
+Definition WILD : N := 9999999.   (* above U+10FFFF: never a character of a real string *)
 Fixpoint smatch (a b : sexp) : bool :=
   match a, b with
   | A n, _ => if n =? WILD then true else match b with A m => n =? m | L _ => false end
@@ -54,4 +54,3 @@ Fixpoint smatch (a b : sexp) : bool :=
   | L _, A _ => false
   end.
 
-Definition str_eqb_eq_dummy := tt.
